@@ -1,6 +1,7 @@
 package main
 
 import (
+	"encoding/base64"
 	"fmt"
 	"strings"
 )
@@ -29,6 +30,22 @@ func init() {
 		}
 		sig, ok := a[0].(StrVal)
 		if !ok || !sig.concrete() || !strings.HasPrefix(sig.s, "sig#") {
+			// not a signature the oracle issued. The real code distinguishes what does not even
+			// decode (an error of the decoder or of the length check - NOT ErrBadSignature) from a
+			// well-formed signature that does not verify (ErrBadSignature):
+			if ok && sig.concrete() {
+				id, _ := a[2].(StrVal)
+				wallet := id.concrete() && len(id.s) <= 42
+				if wallet {
+					// hex, 65 bytes, recoverable: garbage fails one of the three with its own error
+					return m.freshError("verif: signature does not decode (hex / length / recovery)")
+				}
+				if raw, err := base64.StdEncoding.DecodeString(sig.s); err != nil {
+					return m.freshError("illegal base64 data")
+				} else if len(raw) < 64 {
+					return bad()
+				}
+			}
 			return bad()
 		}
 		var k int
